@@ -1,5 +1,5 @@
-\* trie2 as the pinned code is (FixValueDeletePath = FALSE): every property except NoOrphans holds,
-\* and the only database garbage are stale leaf entries
+\* trie2 WITHOUT the fix of trie.go:511 (FixValueDeletePath = FALSE; run only when the probe finds the defect in the tree
+\* under test): every property except NoOrphans holds, and the only database garbage are stale leaf entries
 \* measured: 24 708 distinct states
 CONSTANTS
   H = 3
